@@ -187,6 +187,28 @@ def read_lazy_wiring(repo):
         if not ok:
             raise TranslateError("%s:%d _Elastic.%s getter is not `if self.needUpdate: self._Update(); self.Need_Update(False)` + return of a copy"
                                  % (REL, props[name].lineno, name))
+    # derived cache: Get_sqrt_C_S must read self.C (which processes a pending update and, through the C
+    # setter, resets the cache) BEFORE it looks at its own cache
+    em, _, _ = S.class_members(lm.cls("_Elastic"))
+    if "Get_sqrt_C_S" in em:
+        g = em["Get_sqrt_C_S"]
+        body = [st for st in g.body if not (isinstance(st, ast.Expr) and isinstance(st.value, ast.Constant))]
+        first = body[0] if body else None
+        if not (isinstance(first, (ast.Assign, ast.Expr)) and _n(first.value) in ("self.C", "self.S")):
+            raise TranslateError("%s:%d _Elastic.Get_sqrt_C_S does not read self.C before consulting its cache (a pending needUpdate "
+                                 "would not be processed when the cache is populated)" % (REL, g.lineno))
+        for st in body[1:]:
+            pass
+    # every other public getter must not keep private caches: only __C/__S/__sqrt_C/__sqrt_S are stored
+    stored = set()
+    for node in ast.walk(lm.cls("_Elastic")):
+        if isinstance(node, (ast.Assign, ast.AnnAssign)):
+            for t in (node.targets if isinstance(node, ast.Assign) else [node.target]):
+                if isinstance(t, ast.Attribute) and isinstance(t.value, ast.Name) and t.value.id == "self" and t.attr.startswith("__"):
+                    stored.add(t.attr)
+    extra = stored - {"__C", "__S", "__sqrt_C", "__sqrt_S"}
+    if extra:
+        raise TranslateError("_Elastic stores additional private state %s that the lazy-update model does not know" % sorted(extra))
     return {"set_line": fn.lineno, "unconditional": True}
 
 
